@@ -136,8 +136,8 @@ PROPS.update({
                                            "compression is a lossless stream transform (lz4 library, exercised by the scenarios, not modelled)"]}),
     "C06": mpx_prop("C06", ["inv_reachable", "no_panic", "state_while_held", "late_frame_dropped", "unrepaired_counterexample"],
                     ev("channel_acquire", "channel_tryAcquire", "channel_release", "channel_free", "channel_Free", "channel_receive",
-                       "conn_receiveClose", "conn_receiveData", "conn_receiveWindow", "conn_sendHandle", "conn_closeChannels", "conn_createChannel"),
-                    [scen("c06", "{bin}/mpxscen", "c06", "{seed}", "{tier}", "skip=5"), scen("probe", "{bin}/mpxprobe")],
+                       "conn_receiveClose", "conn_receiveData", "conn_receiveWindow", "conn_sendHandle", "conn_closeChannels", "conn_createChannel", "channel_closeUser"),
+                    [scen("c06", "{bin}/mpxscen", "c06", "{seed}", "{tier}", "skip=5"), scen("stall", "{bin}/mpxscen", "stall", "{seed}", "{tier}"), scen("probe", "{bin}/mpxprobe")],
                     ["mpxscen", "mpxprobe"],
                     extra={"assumptions": ["one Free per channel object by its owner (the user on the client side, the handler runner on the server side); a second Free is API misuse and panics by design",
                                            "atomic operations of sync/atomic are linearizable"]}),
@@ -176,9 +176,9 @@ PROPS.update({
                     extra={"assumptions": ["critical sections under client.mu are atomic steps of the model (tied: mu.Lock/Unlock events)",
                                            "real sleeps are only lower-bounded by the scenario check (timer resolution)"]}),
     "C20": mpx_prop("C20", ["inv_reachable", "at_most_once", "failed_never_called", "ok_called_once", "unsub_never_called", "unrepaired_counterexample"],
-                    ev("conn_addClosed", "conn_notifyClosed", "conn_close", "conn_receiveOpen"),
-                    [scen("c20", "{bin}/mpxfault", "c20", "{seed}", "{tier}")],
-                    ["mpxfault"],
+                    ev("conn_addClosed", "conn_notifyClosed", "conn_close", "conn_receiveOpen", "channel_closeUser", "channel_Free", "state_close"),
+                    [scen("c20", "{bin}/mpxfault", "c20", "{seed}", "{tier}"), scen("stall", "{bin}/mpxscen", "stall", "{seed}", "{tier}")],
+                    ["mpxfault", "mpxscen"],
                     extra={"assumptions": ["xsync.Map operations (Store, Delete, Range) are linearizable; Range visits every key present for the whole pass"]}),
 })
 
